@@ -60,7 +60,10 @@ def build_pair(tape, opts, max_msgs=6, apis=("deferred", "delegate"),
     mode = tape.pick(("alloc_set", "set_set", "alloc_input"), "codemode")
     api_a = tape.pick(apis, "api_a")
     api_b = tape.pick(apis, "api_b")
-    lazy_a = lazy_ok and api_a == "deferred" and tape.choose(4, "lazy") == 3
+    if opts.get("slow_reader"):
+        api_a = "deferred"
+    lazy_a = (lazy_ok and api_a == "deferred" and tape.choose(4, "lazy") == 3) \
+        or bool(opts.get("slow_reader"))
     dil = bool(opts.get("dilate"))
     a = w.add_client("A", api=api_a, versions={"v": "A"},
                      lazy_messages=lazy_a, **({"dilation": True} if dil
@@ -90,6 +93,18 @@ def build_pair(tape, opts, max_msgs=6, apis=("deferred", "delegate"),
                                                tape.choose(3, "dnl") == 0})])
     a.script = interleave(tape, ca, sa)
     b.script = interleave(tape, cb, sb)
+    if opts.get("slow_reader"):
+        # A starts reading late: until then nothing asks for the messages
+        # that keep arriving (they wait in the library)
+        def start_reading(c):
+            if c.lazy_messages:
+                c.lazy_messages = False
+                w.sim.note("probe.slow_reader_starts_reading")
+                c._next_message()
+        w.extra_ops = dict(w.extra_ops or {}, start_reading=start_reading)
+        a.script += [("wait_event_or_steps", "verifier", 400),
+                     ("wait_steps", 40 + tape.choose(260, "slow_reader")),
+                     ("start_reading",)]
     w.mode = mode
     return w, a, b
 
